@@ -21,7 +21,7 @@ pub fn def() -> CheckDef {
         rule: "random networks x closed extended formulae (wild-cards %p% %q%, domains %p% %d% %e% on bind/exists/forall, nested and repeated, \
                bodies that do or do not mention the variable, patterns inside scopes) x random context sets inside the unit set (empty, full, \
                single pair, colour-independent, colour-dependent, empty for some colours only): library result vs explicit-state oracle on every \
-               state and valid colour, plus the three README equivalences for a random body. Non-trivial: some used set is a strict non-empty \
+               state and valid colour, plus the three README equivalences for a random body (one call per side, and one of them as ONE batch call holding both sides and the generated formula). Non-trivial: some used set is a strict non-empty \
                subset of the unit set and the oracle's answer is non-trivial; distinct by (network, formula, sets).",
         assumptions: &["explicit oracle as in C01 with the textbook clauses for %p% and `Q{x} in %d%`", "context sets are built inside the unit set and do not mention spare variables"],
         cases: |t| if t == Tier::Quick { 4000 } else { 300_000 },
